@@ -235,6 +235,17 @@ func (x *fnv) modelCall(s *State, fo *types.Func, recv *Value, args []Value, cal
 	case "reflect.TypeOf":
 		x.p.noteModel("reflect.TypeOf: the dynamic type id of the interface value (nil for a nil interface)")
 		return one(Value{T: fo.Type().(*types.Signature).Results().At(0).Type(), Term: x.dyn(args[0].Term)})
+	case "reflect.SliceOf", "reflect.PtrTo", "reflect.PointerTo", "reflect.New", "reflect.Zero":
+		// library precondition: these panic on a nil reflect.Type
+		x.p.noteModel("reflect.SliceOf/PointerTo/New/Zero: panic on a nil reflect.Type (library precondition checked as a safety obligation); results are opaque")
+		x.safe(s, "nilrtype", c.Not(c.Eq(args[0].Term, c.Int(0))), call.Pos())
+		rt := fo.Type().(*types.Signature).Results().At(0).Type()
+		if isReflectType(rt) {
+			r := c.App("rt_"+fo.Name(), SInt, args[0].Term)
+			s.Assume(c.Gt(r, c.Int(0)))
+			return one(Value{T: rt, Term: r})
+		}
+		return one(x.h.freshValue(s, rt, "reflect_"+fo.Name()))
 	case "(reflect.Type).Kind":
 		return one(Value{T: fo.Type().(*types.Signature).Results().At(0).Type(), Term: x.rtKind(s, recv.Term)})
 	case "(reflect.Type).Implements":
